@@ -30,8 +30,10 @@ import time
 import traceback
 
 ROOT = os.path.dirname(os.path.dirname(os.path.dirname(os.path.abspath(__file__))))
-OUT = os.path.join(ROOT, "out")
-EVID = os.path.join(ROOT, "evidence")
+# VERIF_OUT / VERIF_EVIDENCE redirect the scratch output (replay files) and the evidence files; used only by
+# seeded/run_all_seeded.py, which runs several patched scratch worktrees side by side
+OUT = os.environ.get("VERIF_OUT") or os.path.join(ROOT, "out")
+EVID = os.environ.get("VERIF_EVIDENCE") or os.path.join(ROOT, "evidence")
 KNOWN = os.path.join(ROOT, "known_findings.json")
 
 CHECKS = {
